@@ -9,6 +9,7 @@ import (
 	"crypto"
 	"encoding/hex"
 	"fmt"
+	"hash"
 	"strings"
 	"sync"
 	"testing"
@@ -132,6 +133,11 @@ func build(c vcfg, fresh bool) *built {
 // "" means all passed, otherwise the first failure.
 func verifyAll(ov *fdo.Voucher, dev *deploy.Device) string {
 	h256, h384 := dev.Hmacs()
+	return verifyAllWith(ov, dev, h256, h384)
+}
+
+// verifyAllWith uses the caller's HMAC objects (a device keeps one pair for its lifetime).
+func verifyAllWith(ov *fdo.Voucher, dev *deploy.Device, h256, h384 hash.Hash) string {
 	first := ""
 	note := func(step string, err error) {
 		if err != nil && first == "" {
@@ -280,9 +286,18 @@ func evalAlt(d altDesc) ev.Result {
 	if err := cbor.Unmarshal(mutated, &ov); err != nil {
 		return ev.Result{NonTrivial: true, Class: "rejected-at-decode/" + opname, ID: fmt.Sprintf("%s|%s|%s|%d", d.V.id(), opname, path, d.Bit/8)}
 	}
-	var why string
-	if pkey, pmsg, ok := ev.Guard(func() { why = verifyAll(&ov, b.dev) }); !ok {
+	var why, whyGenuine string
+	// the same HMAC objects first see the altered voucher, then the genuine one (a refused
+	// voucher must not poison later verifications)
+	h256, h384 := b.dev.Hmacs()
+	if pkey, pmsg, ok := ev.Guard(func() {
+		why = verifyAllWith(&ov, b.dev, h256, h384)
+		whyGenuine = verifyAllWith(clone(b.ov), b.dev, h256, h384)
+	}); !ok {
 		return ev.Failf(pkey, "%s: %s at %s (arg %d, bit %d): %s", d.V.id(), opname, path, d.Mut.Arg, d.Bit, pmsg)
+	}
+	if whyGenuine != "" {
+		return ev.Failf("genuine-rejected-after-altered", "%s: after verifying an altered voucher (%s at %s: %q) the genuine voucher no longer verifies with the same HMAC objects: %s", d.V.id(), opname, path, why, whyGenuine)
 	}
 	res := ev.Result{NonTrivial: true, Class: fmt.Sprintf("rejected/%s/len%d", cls, min(len(d.V.Owners), 2)), ID: fmt.Sprintf("%s|%s|%s|%d|%d", d.V.id(), opname, path, d.Mut.Arg, d.Bit)}
 	if why != "" {
@@ -728,7 +743,7 @@ func TestC04(t *testing.T) {
 	r.SetRule("extension-histories", "rapid-generated histories: a freshly signed voucher (key, enc, 0..3 initial extensions, every intermediate object kept) then 1..7 operations 'extend pooled voucher #i with its current owner key to owner key j', on the object itself or on a decoded copy, so the same object is extended several times to different owners (forks) at every entry-slice length/capacity. Oracle after every operation, for EVERY voucher obtained so far: all verification steps pass, OwnerPublicKey is the key of that voucher's own last extension, entry count and encoding are what they were when it was created. Non-trivial: some object extended at least twice; distinct by descriptor.")
 	ev.Rapid(r, "extension-histories", ev.N{Quick: 1500, Thorough: 60000}, genHist, evalHist)
 
-	r.SetRule("alteration", "voucher from (key, enc, owner sequence 0..4: a voucher without entries is bound by the header HMAC alone) × one structure-aware mutation (all operators of the engine, descending into the header bstr, entry payloads and protected headers) or one bit flip of the encoded voucher. Oracle: decoding fails or at least one of VerifyHeader/VerifyManufacturerKey/VerifyCertChainHash/VerifyDeviceCertChain/VerifyEntries/OwnerPublicKey fails — unless the alteration lies in the outer version or an entry's unprotected header map, or the decoded voucher re-encodes to the original bytes; never a panic. Non-trivial: every altered voucher; distinct by (voucher, operator, path, arg/bit).")
+	r.SetRule("alteration", "voucher from (key, enc, owner sequence 0..4: a voucher without entries is bound by the header HMAC alone) × one structure-aware mutation (all operators of the engine, descending into the header bstr, entry payloads and protected headers) or one bit flip of the encoded voucher. Oracle: the genuine voucher still verifies afterwards with the same HMAC objects; decoding fails or at least one of VerifyHeader/VerifyManufacturerKey/VerifyCertChainHash/VerifyDeviceCertChain/VerifyEntries/OwnerPublicKey fails — unless the alteration lies in the outer version or an entry's unprotected header map, or the decoded voucher re-encodes to the original bytes; never a panic. Non-trivial: every altered voucher; distinct by (voucher, operator, path, arg/bit).")
 	ev.Rapid(r, "alteration", ev.N{Quick: 16000, Thorough: 600000}, genAlt, evalAlt)
 
 	// exhaustive bit flips of one voucher per key type (thorough: all bits; quick: every 3rd byte)
